@@ -102,8 +102,20 @@ class BloomDriver:
             return None
         return bytes(bytearray(obj.bloom[: obj.bloom_length]))
 
+    def _skip_this_verify(self, force=False):
+        """look-ups after EVERY step would refresh whatever the structure remembers from its last query before the next update can
+        trip over it: with case["verify_mask"] the comparison with the model runs only at some steps (always at the end)"""
+        vm = self.case.get("verify_mask", 0)
+        self.nv = getattr(self, "nv", -1) + 1
+        if vm and not force and not getattr(self, "_final", False) and not (vm >> (self.nv % 8)) & 1:
+            self.events.add("steps_without_queries")
+            return True
+        return False
+
     def verify(self, what):
         ctx, o = self.ctx, self.obj
+        if self._skip_this_verify(force=getattr(self, "force_stats", False)):
+            return
         if self._o("member"):
             for k in self.keys:
                 r = ctx.call(self._o("member"), o.check, k)
@@ -416,6 +428,8 @@ class BloomDriver:
             self.verify("fresh")
             for op in self.case["ops"]:
                 self.step(op)
+            self._final = True
+            self.verify("at the end of the history")
         finally:
             pass
         o = self.obj
@@ -459,6 +473,7 @@ def case_strategy(tier, kinds=("bloom", "ondisk", "expanding"), hashes=None, max
         return {"kind": kind, "est": est, "fpr": fpr, "hash": draw(gen.hash_name_st(hashes)),
                 "pool": draw(gen.pool_st(2, 10)), "ops": [list(o) for o in ops],
                 "stat_mask": draw(st.one_of(st.just(0), st.integers(1, 255))),
-                "alt_mode": draw(st.sampled_from(["", "", "scratch", "shared"]))}
+                "alt_mode": draw(st.sampled_from(["", "", "scratch", "shared"])),
+                "verify_mask": draw(st.one_of(st.just(0), st.just(0), st.integers(1, 255)))}
 
     return case()
